@@ -1642,3 +1642,54 @@ Q(name="e2_retry_resets_initial_space_slice", props=["C12"], func=r"connection/m
   functions=["Connection::process_decrypted_packet (slice: re-initialisation of the Initial space after a Retry)"], pre=lambda c: "true", post=rs_post,
   bounds="from an arbitrary state: before the Initial packet space is replaced by a fresh one, discard_space(Initial) has run, so every Initial packet still in flight is removed from the congestion controller's bytes-in-flight; located through the source text",
   replay=("conn_retry_native", lambda m: [dict(valid=1, authed_before=0), dict(valid=1, authed_before=1)]))
+
+
+# ------------------------------------------------------------------ C16 / C13: after a black hole is detected, queued datagrams are re-checked against the REDUCED MTU (slice)
+def bh_post(c, p):
+    st = p.p.state
+    calls = st.calls
+    bh = [i for i, x in enumerate(calls) if re.search(r"MtuDiscovery::black_hole_detected$", x[0])]
+    if len(bh) != 1:
+        return "false"
+    det = c.ex.read_key(st, calls[bh[0]][2], BOOL).t if not str(calls[bh[0]][2]).startswith("|") else calls[bh[0]][2]
+    upd = [i for i, x in enumerate(calls) if re.search(r"on_mtu_update$", x[0])]
+    ms = [i for i, x in enumerate(calls) if re.search(r"Datagrams::max_size$", x[0])]
+    dr = [i for i, x in enumerate(calls) if re.search(r"drop_oversized$", x[0])]
+    if not upd:
+        # nothing to do unless a black hole was detected
+        return and_(not_(det), "true" if not dr else "false")
+    conj = [det]
+    # the congestion controller learns the new MTU first ...
+    cm = [i for i, x in enumerate(calls) if re.search(r"current_mtu$", x[0]) and bh[0] < i < upd[0]]
+    if not cm:
+        return "false"
+    a = calls[upd[0]][1][1]
+    if a[0] != "val":
+        return "false"
+    conj.append(eq(a[1].t, c.ex.read_key(_Snap(st, calls[upd[0]][3]), calls[cm[-1]][2], ("bv", 16, False)).t if not str(calls[cm[-1]][2]).startswith("|") else calls[cm[-1]][2]))
+    # ... then the datagram queue is purged against the size limit computed AFTER the reduction
+    fresh = [i for i in ms if i > upd[0]]
+    if dr:
+        if not fresh or dr[0] < fresh[0]:
+            return "false"
+        arg = calls[dr[0]][1][1]
+        src = calls[fresh[-1]][2]
+        if arg[0] != "val":
+            return "false"
+        snap = _Snap(st, calls[dr[0]][3])
+        conj.append(eq(arg[1].t, c.ex.read_key(snap, src + "@Some.0", BV64).t))
+    else:
+        # no purge only when datagrams are not in use on this connection
+        if not fresh:
+            return "false"
+        conj.append(eq(c.ex.read_key(st, calls[fresh[-1]][2] + "#discr", I64).t, bv(0)))
+    return and_(*conj)
+
+
+Q(name="e2_black_hole_purges_datagrams_slice", props=["C16", "C13"], func=r"connection/mod\.rs:245:1[^>]*>::detect_lost_packets$",
+  src="connection/mod.rs", within=r"^    fn detect_lost_packets\(", start_line=r"if self\.path\.mtud\.black_hole_detected\(now\)", end_line=r"let lost_ack_eliciting = ",
+  check_stop=True, allowed_panics=r".", ignore_untranslatable=r"^loop at",
+  modifies=lambda c: {r"on_mtu_update$": ["*call:"], r"Datagrams::max_size$": []},
+  functions=["Connection::detect_lost_packets (slice: reaction to a detected black hole)"], pre=lambda c: "true", post=bh_post,
+  bounds="from an arbitrary state: when MtuDiscovery::black_hole_detected reports a black hole, the congestion controller is told the current (reduced) MTU and the outgoing datagram queue is purged with the Datagrams::max_size value computed AFTER that reduction; without a black hole nothing is purged; located through the source text",
+  replay=("conn_black_hole_datagrams_native", lambda m: [dict(x=0)]))
